@@ -342,6 +342,23 @@ Definition name_ok (vals : list (list N * value)) : bool :=
   | _ => true
   end.
 
+(* Not modelled: call_obj_processors (after the whole model is built) iterates over every contained
+   many-valued attribute; when such an attribute holds a scalar (one attribute assigned with ?= / =
+   and with *= / += ) it raises TypeError or walks the characters of a string.  Such objects are
+   outside the model. *)
+Definition many_ok (meta : list attr) (vals : list (list N * value)) : bool :=
+  forallb (fun ma =>
+             match a_mult ma with
+             | MStar | MPlus =>
+               if a_cont ma then
+                 match get_val (a_name ma) vals with
+                 | Some (VList _) | Some VNone | None => true
+                 | _ => false
+                 end
+               else true
+             | _ => true
+             end) meta.
+
 (* process_node; [top] is the top of parser._inst_stack.  Returns the value and the new top. *)
 Fixpoint pnode (t : tree) (top : option cur) : bres (value * option cur) :=
   match t with
@@ -409,7 +426,9 @@ Fixpoint pnode (t : tree) (top : option cur) : bres (value * option cur) :=
       let c0 := mkCur cls attrs (tpos t) (tend t) (init_attrs attrs) in
       match each_loop pnode kids (Some c0) with
       | BOk (Some c1) =>
-        if name_ok (c_vals c1) then BOk (VObj (c_cls c1) (c_pos c1) (c_end c1) (c_vals c1), top)
+        if name_ok (c_vals c1) then
+          if many_ok (c_meta c1) (c_vals c1) then BOk (VObj (c_cls c1) (c_pos c1) (c_end c1) (c_vals c1), top)
+          else BErr EUnsup
         else BErr ESem
       | BOk None => BErr ECrash
       | BErr e => BErr e
